@@ -929,21 +929,21 @@ func (c *libCtx) initialized(mi *msgInfo, v, other *V) {
 	// binary Unmarshal of the (possibly partial) reference encoding into a fresh message
 	if partialEnc != nil {
 		key := "lib/" + id + "/unmarshal-initialized"
-		for _, uo := range []proto.UnmarshalOptions{{}, {AllowPartial: true}} {
-			name := fmt.Sprintf("proto.UnmarshalOptions{Merge:%v AllowPartial:%v}.Unmarshal", uo.Merge, uo.AllowPartial)
-			var tg proto.Message
-			var td *dynamicpb.Message
-			if uo.Merge {
-				tg, td = c.G(mi, other), si.toDyn(mi, other)
-			} else {
-				tg, td = c.newG(mi), dynamicpb.NewMessage(mi.md)
-			}
+		for _, uo := range []proto.UnmarshalOptions{{}, {AllowPartial: true}, {DiscardUnknown: true}, {DiscardUnknown: true, AllowPartial: true}} {
+			key := key
+			name := fmt.Sprintf("proto.UnmarshalOptions{DiscardUnknown:%v AllowPartial:%v}.Unmarshal", uo.DiscardUnknown, uo.AllowPartial)
+			tg, td := c.newG(mi), dynamicpb.NewMessage(mi.md)
 			var eg error
 			pan := catchPanic(func() { eg = uo.Unmarshal(partialEnc, tg) })
 			ed := uo.Unmarshal(partialEnc, td)
-			o.count("unmarshal_partial=" + tf(uo.AllowPartial) + "_" + map[bool]string{true: "ok", false: "rejects"}[ed == nil])
+			o.count("unmarshal_partial=" + tf(uo.AllowPartial) + "_discard=" + tf(uo.DiscardUnknown) + "_" + map[bool]string{true: "ok", false: "rejects"}[ed == nil])
+			if pan == nil && eg == nil && ed != nil && uo.DiscardUnknown && !uo.AllowPartial && !init {
+				// the generated Unmarshal echoes its input flags into UnmarshalOutput.Flags: the input bit UnmarshalDiscardUnknown is
+				// the output bit UnmarshalInitialized, so the library skips its required-fields check (KNOWN_FINDINGS)
+				key = "lib/unmarshal-discardunknown-skips-required-check/" + id
+			}
 			if pan != nil || (eg == nil) != (ed == nil) {
-				o.withKey(key).prop("C10", false, fmt.Sprintf("%s of %s into %s: generated err=%v panic=%v, reference err=%v; bytes %s; value %s; target before %s", name, id, hx(partialEnc), eg, pan, ed, hx(partialEnc), v, map[bool]string{true: other.String(), false: "fresh"}[uo.Merge]))
+				o.withKey(key).prop("C10", false, fmt.Sprintf("%s of %s into a fresh %s: generated err=%v panic=%v, reference err=%v; value encoded %s", name, hx(partialEnc), id, eg, pan, ed, v))
 				continue
 			}
 			if ed != nil {
@@ -951,7 +951,7 @@ func (c *libCtx) initialized(mi *msgInfo, v, other *V) {
 				continue
 			}
 			a, b := c.normG(mi, tg), c.normD(mi, td.ProtoReflect())
-			o.withKey(key).prop("C10", a == b, fmt.Sprintf("%s of %s into %s: generated gives %s, reference gives %s; value %s", name, hx(partialEnc), id, a, b, v))
+			o.withKey(key).prop("C10", a == b, fmt.Sprintf("%s of %s into a fresh %s: generated gives %s, reference gives %s; value encoded %s", name, hx(partialEnc), id, a, b, v))
 		}
 	}
 	if init {
